@@ -68,16 +68,52 @@ static void sweep_case(long item)
         ENG_POLICY_OVERRIDE = NULL;
 }
 
+/* sweep (ii): a held line is released while the application keeps the event queue occupied (a periodic report re-triggered whenever there is room):
+ * with an always-ready output its result code is out after one unit of the other producer at most, and the line behind it is answered too */
+#define N_LOAD 16
+static cat_return_state load_policy(struct hcall *h) { if (h->fsm == FSM_A && h->ci == 0 && HOLD_PHASE == 0 && LINES_DONE <= 1) return CAT_RETURN_STATE_HOLD; return h->fsm == FSM_U ? CAT_RETURN_STATE_DATA_OK : CAT_RETURN_STATE_OK; }
+static void sweep_load(long item)
+{
+        bool shared = item & 1, crlf = item & 2; int kind = (int)((item >> 2) & 3);
+        snprintf(mode, sizeof mode, "sweep: hold (handler kind %d) released while the event queue is kept occupied", kind);
+        w_begin();
+        struct cat_command *arr = w_group(2, false);
+        arr[0].name = xstr("+H"); arr[0].run = h_run; arr[0].read = h_read; arr[0].write = h_write; arr[0].test = h_test;
+        arr[1].name = xstr("+E"); arr[1].read = h_read; { struct cat_variable *v = w_vars(&arr[1], 1); v->type = CAT_VAR_UINT_DEC; uint8_t *d = w_vdata(v, 1); *d = 5; }
+        w_buffers(shared ? 96 : 48, shared, 40);
+        w_init((int)(item & 1));
+        static const char *forms[4] = { "AT+H", "AT+H?", "AT+H=1", "AT+H=?" };
+        in_reset(); in_puts(forms[kind]); in_puts(crlf ? "\r\n" : "\n"); in_puts("AT+E?\n");
+        sch_eager(&RS); sch_eager(&WS);
+        eng_monitors_install();
+        ENG_POLICY_OVERRIDE = load_policy; EP.p_handler_trigger = 0;
+        long guard = 0;
+        while (HOLD_PHASE != 1 && guard++ < 5000) { cat_status st = svc(); eng_after_service(st); if (case_failed()) goto out; }
+        if (HOLD_PHASE != 1) { inconclusive("sweep never reached the hold"); goto out; }
+        eng_hold_exit(CAT_STATUS_OK);
+        long B = 4 * (long)(W.capA + W.capU) + 200, used = 0;
+        for (; used < B && RESULT_CODES < 1; used++) {
+                if (cat_is_unsolicited_buffer_full(W.at) == CAT_STATUS_OK) eng_trigger(1, (used & 1) ? CAT_CMD_TYPE_TEST : CAT_CMD_TYPE_READ);
+                cat_status st = svc(); eng_after_service(st); if (case_failed()) goto out;
+        }
+        CNT("releases_under_continuous_event_load");
+        if (RESULT_CODES < 1) { viol("C01", "line-never-answered", "the released line has no result code after %ld service calls although the output accepts every byte (the event queue is kept occupied)", B); goto out; }
+        if (run_quiet(eng_progress_bound()) < 0) { viol("C15", "no-quiescence", "no quiescence after the event load stopped"); goto out; }
+        eng_after_service(CAT_STATUS_BUSY);
+        if (RESULT_CODES != 2 && !case_failed()) viol("C01", "final-count", "%ld result codes for 2 lines", RESULT_CODES);
+out:
+        ENG_POLICY_OVERRIDE = NULL;
+}
 struct case_budget chk_budget(const char *tier)
 {
-        struct case_budget b = { n_tables(), strcmp(tier, "thorough") == 0 ? 8000000 : 200000 };
+        struct case_budget b = { n_tables() + N_LOAD, strcmp(tier, "thorough") == 0 ? 8000000 : 200000 };
         return b;
 }
 void chk_run_case(uint64_t seed, long c, bool is_sweep)
 {
         (void)seed;
         eng_default_profile();
-        if (is_sweep) { sweep_case(c); return; }
+        if (is_sweep) { if (c < n_tables()) sweep_case(c); else sweep_load(c - n_tables()); return; }
         snprintf(mode, sizeof mode, "random history");
         if (chance(30)) { EP.p_event_step = 0; EP.p_handler_trigger = 0; }
         if (chance(20)) EP.max_cmds = 40;
